@@ -5,7 +5,7 @@ import runner, coreutil, gen_core
 from coreutil import Scenario, events, reads, toks
 from refcodec import server_frame, close_payload
 
-TRUSTED = ['correspondence: harness/world.py (fault injection at the simulated socket/selector)',
+TRUSTED = ['correspondence: harness/world.py (fault injection at the simulated socket/selector)', 'real-transport runs (harness/realsock.py): the OS TCP / AF_UNIX stack and select / poll of this machine, short wall-clock poll intervals',
            'per-address connect loop: the real _connect_sock is driven with a simulated socket module (harness/props/c09.py) and compared call-by-call with lean/Lomond/Model/Connect.lean for every outcome combination of up to 3 addresses',
            'the core model treats `_connect` as one outcome (cfg.connect); the link between Connect.connectSock = fail and cfg.connect = socketFail is by inspection of session.py (_connect_sock raises _SocketFail, run() catches it)']
 ASSUMPTIONS = ['faults: EOF, socket.error, arbitrary exception at recv; socket.error at sendall; OSError at selector.wait; connect outcomes per resolved address',
@@ -183,10 +183,14 @@ def real_connect_cases(_):
 def explore(res, tier, seed, model_ok=True):
     rng = random.Random(seed)
     nbase = 6 if tier == 'quick' else 40
+    # the real transport: TCP loopback / AF_UNIX pairs, every selector class the platform has, connections ended by FIN and by RST at
+    # several points (oracle only: no exception escapes, the run ends with Disconnected, the socket is closed)
+    import realsock
+    realsock.explore(res, tier)
     res.rule = ('%d base scenarios x one fault injected at every individual socket operation: connect (2 kinds), each of the first 8 sendall calls, recv at every byte offset of the server stream (EOF / socket.error / other exception; streams over 2000 bytes: every offset of the first 600 and last 300 bytes plus 600 sampled), '
                 'selector.wait at every cycle; plus every outcome combination of up to 3 resolved addresses on the real _connect_sock; plus composed connections (harness/linkworld.py): '
                 'getaddrinfo / per-address outcomes x a random core history run through the real _connect/_connect_sock and the whole session loop, compared with the composed model `link`; '
-                'non-trivial = every faulted run; distinct by operation line') % nbase
+                'plus runs on a REAL transport (harness/realsock.py: TCP loopback and AF_UNIX pairs x every selector class of the platform x 8 endings: FIN / RST after the messages, inside a frame, before the reply is complete, silence then FIN, closing handshake); non-trivial = every faulted run; distinct by operation line') % nbase
     first_pairs = None
     # one batch per base scenario, so that memory stays bounded in the thorough tier
     for b in base_scenarios(rng, nbase):
@@ -257,6 +261,12 @@ def explore(res, tier, seed, model_ok=True):
 
 
 def replay(rp):
+    if isinstance(rp.get('input'), dict) and 'realsock' in rp['input']:
+        import realsock
+        it = tuple(rp['input']['realsock'])
+        r = realsock.run_one(it)
+        print(r); print(realsock.judge(it, r))
+        return 0
     if isinstance(rp.get('input'), dict) and rp['input'].get('kind') == 'link':
         import linkworld
         case = rp['input']['case']
